@@ -556,6 +556,48 @@ func directed(k int, out *bufio.Writer) {
 		}
 		h.IEmit("R req %d %d %s", wi.Num, d.Pass(pass+"?"), res)
 		h.Listing()
+	case 8:
+		// block-record order: B is removed; block X holds T1 (pays B's address, a stranger now) and T2
+		// (spends T1's output, pays A): only T2 is recorded. B is re-imported: the rescan appends T1 to
+		// X's block record AFTER T2 and marks T1's output spent by T2. X is then reorganised away:
+		// Rollback walks the record backwards, deletes T1's credit first and then cannot un-spend it for T2.
+		mn, pass := B.Mnemo, B.Pass
+		e.plainRemove(B)
+		h.RetireWallet(B)
+		var stranger *hist.Coin
+		for _, c := range h.MatureCoins(h.N.Height() + 1) {
+			if c.Sh != a1.Sh && c.Sh != b1.Sh && c.Val > 0 && c.Class == hist.ClsStd {
+				stranger = c
+				break
+			}
+		}
+		if stranger == nil {
+			// the base chain pays only A and B: use one of B's former coins (B is gone, they are strangers' now)
+			stranger = e.pick(b1.Sh)
+		}
+		t1 := hist.PayTx(stranger, []sim.Out{{Script: h.ScriptStd(b1), Value: 1}})
+		t2 := sim.NewTx([]wire.OutPoint{{Hash: t1.TxHash(), Index: 0}}, nil, []sim.Out{{Script: h.ScriptStd(a1), Value: t1.TxOut[0].Value}}, 0, nil)
+		e.attach(h.BlockWith(nil, []*wire.MsgTx{t1, t2}))
+		h.Query()
+		d.G.Arm()
+		wi, err := h.ImportMnemonic(B.Num, mn, pass, d.Pass(pass))
+		must(err)
+		st, ok := d.RunImport(wi, nil, stepTimeout)
+		h.IEmit("C import-ended %s %v", st, ok)
+		d.Settle()
+		h.AdoptWallet(wi)
+		h.Query()
+		_, err = h.Detach()
+		must(err)
+		must(h.Attach(h.BlockWith(nil, nil)))
+		b7 := h.BlockWith(nil, nil)
+		must(h.Attach(b7))
+		h.Process(b7)
+		h.Query()
+		b8 := h.BlockWith([]sim.Out{{Script: h.ScriptStd(a1), Value: 900}}, nil)
+		must(h.Attach(b8))
+		h.Process(b8)
+		h.Query()
 	case 7:
 		// more credits than one round takes (thorough tier): 20100 credits in 201 transactions of 100 outputs
 		var outs []sim.Out
@@ -730,7 +772,7 @@ func main() {
 	var res []byte
 	if *dir {
 		self, _ := os.Executable()
-		ks := []int{1, 2, 3, 3, 3, 3, 4, 5, 5, 5, 5, 5, 5, 6}
+		ks := []int{1, 2, 3, 3, 3, 3, 4, 5, 5, 5, 5, 5, 5, 6, 8}
 		if *tier == "thorough" {
 			ks = append(ks, 7)
 		}
